@@ -19,9 +19,6 @@ open BtcVerif BtcVerif.Spec.Wire
 
 /-! ### script tokenisation (script.h `GetScriptOp`) -/
 
-def OP_PUSHDATA1 : Nat := 0x4c
-def OP_PUSHDATA2 : Nat := 0x4d
-def OP_PUSHDATA4 : Nat := 0x4e
 def OP_CODESEPARATOR : UInt8 := 0xab
 
 /-- `GetScriptOp`: the opcode at the front of `s` and the total size of the operation (opcode byte,
@@ -31,13 +28,13 @@ def getOp (s : Bytes) : Option (UInt8 × Nat) :=
   match s with
   | [] => none
   | b :: r =>
-    if b.toNat ≤ OP_PUSHDATA4 then
+    if b.toNat ≤ 0x4e then                 -- opcode <= OP_PUSHDATA4
       -- (width of the length field, payload size)
       let hdr : Option (Nat × Nat) :=
-        if b.toNat < OP_PUSHDATA1 then some (0, b.toNat)
-        else if b.toNat = OP_PUSHDATA1 then (if r.length < 1 then none else some (1, leNat (r.take 1)))
-        else if b.toNat = OP_PUSHDATA2 then (if r.length < 2 then none else some (2, leNat (r.take 2)))
-        else (if r.length < 4 then none else some (4, leNat (r.take 4)))
+        if b.toNat < 0x4c then some (0, b.toNat)                                             -- < OP_PUSHDATA1
+        else if b.toNat = 0x4c then (if r.length < 1 then none else some (1, leNat (r.take 1)))  -- OP_PUSHDATA1
+        else if b.toNat = 0x4d then (if r.length < 2 then none else some (2, leNat (r.take 2)))  -- OP_PUSHDATA2
+        else (if r.length < 4 then none else some (4, leNat (r.take 4)))                         -- OP_PUSHDATA4
       match hdr with
       | none => none
       | some (w, n) => if r.length - w < n then none else some (b, 1 + w + n)
